@@ -28,4 +28,22 @@ PROPS = {
         "functions": ["Config::aligned_bufsize"],
         "bounds": "", "outside": "", "assumptions": [],
     },
+    "C17": {"claimed": False, "functions": [], "bounds": "", "outside": "", "assumptions": []},
+    "C18": {"claimed": False, "functions": [], "bounds": "", "outside": "", "assumptions": []},
+    "C16": {"claimed": False, "functions": [], "bounds": "", "outside": "", "assumptions": []},
+    "C19": {"claimed": False, "functions": [], "bounds": "", "outside": "", "assumptions": []},
+    "C20": {"claimed": False, "functions": [], "bounds": "", "outside": "", "assumptions": []},
+    "C01": {"claimed": False, "functions": [], "bounds": "", "outside": "", "assumptions": []},
+    "C02": {"claimed": False, "functions": [], "bounds": "", "outside": "", "assumptions": []},
+    "C03": {"claimed": False, "functions": [], "bounds": "", "outside": "", "assumptions": []},
+    "C04": {"claimed": False, "functions": [], "bounds": "", "outside": "", "assumptions": []},
+    "C05": {"claimed": False, "functions": [], "bounds": "", "outside": "", "assumptions": []},
+    "C07": {"claimed": False, "functions": [], "bounds": "", "outside": "", "assumptions": []},
+    "C08": {"claimed": False, "functions": [], "bounds": "", "outside": "", "assumptions": []},
+    "C09": {"claimed": False, "functions": [], "bounds": "", "outside": "", "assumptions": []},
+    "C10": {"claimed": False, "functions": [], "bounds": "", "outside": "", "assumptions": []},
+    "C11": {"claimed": False, "functions": [], "bounds": "", "outside": "", "assumptions": []},
+    "C12": {"claimed": False, "functions": [], "bounds": "", "outside": "", "assumptions": []},
+    "C13": {"claimed": False, "functions": [], "bounds": "", "outside": "", "assumptions": []},
+    "C14": {"claimed": False, "functions": [], "bounds": "", "outside": "", "assumptions": []},
 }
